@@ -28,6 +28,8 @@ var (
 	clContain = []string{"api-panic", "goroutine-panic", "deadlock", "hang", "sync-misuse"}
 	clResult  = []string{"result-map"}
 	clLocals  = []string{"unassigned-local-visible", "local-changed-by-other-execution", "local-lost", "shared-injected-not-visible"}
+	clRuleSet = []string{"ruleset-extra-rule", "ruleset-wrong-version", "ruleset-wrong-salience", "ruleset-order", "ruleset-duplicate", "ruleset-missing-rule",
+		"exist-query-disagrees", "mgmt-panic", "invalid-text-accepted", "valid-operation-rejected"}
 	clConc    = []string{"conc-child-count", "conc-join", "conc-error-lost", "conc-next-statement-missing", "conc-assignment-lost", "event-after-return"}
 )
 
@@ -128,6 +130,41 @@ var (
 	}
 )
 
+var allPoolMethodsNoEM = allEngineMethods
+
+var (
+	ProfC17 = &Profile{
+		MinRules: 1, MaxRules: 4, SalSpan: 1,
+		Secs:    map[int]int{SecY: 4, SecCall: 2, SecIfKind: 1, SecConc: 1},
+		MaxSecs: 3, Rets: []int{RetNone, RetNestedV},
+		FaultPct: 40, GatePct: 60, RetPct: 50, StopPct: 10, UnknownNamePct: 15, BadNMPct: 10,
+	}
+	ProfC06 = &Profile{
+		MinRules: 1, MaxRules: 4, SalSpan: 1,
+		Secs:    map[int]int{SecY: 4, SecEcho: 4, SecOpt: 3, SecCall: 1},
+		MaxSecs: 4, Rets: []int{RetNone, RetReq, RetReq, RetNestedV},
+		FaultPct: 20, GatePct: 60, RetPct: 70, UnknownNamePct: 10, BadNMPct: 5,
+	}
+	clCapacity  = []string{"more-than-max-in-flight", "request-did-not-wait", "pool-capacity-lost"}
+	clIsolation = []string{"foreign-request-data", "stale-injected-key-visible", "result-map-modified-after-return", "request-data-modified-after-return",
+		"stray-event", "unscheduled-rule-ran", "event-after-return", "result-map"}
+)
+
+func w2(opt *W2Opt) func(plan, sched *simrt.Source, trace bool) *RunOut {
+	return func(plan, sched *simrt.Source, trace bool) *RunOut { return RunW2(opt, plan, sched, trace) }
+}
+
+// mixed runs the engine workload most of the time and the same profile through a pool otherwise.
+func mixed(p *Profile) func(plan, sched *simrt.Source, trace bool) *RunOut {
+	opt := &W2Opt{Prof: p, Methods: p.Methods, MaxClients: 4, MaxReqs: 4, Oracle: CheckPoolCalls}
+	return func(plan, sched *simrt.Source, trace bool) *RunOut {
+		if plan.Intn(10) < 7 {
+			return RunW1(p, plan, sched, trace)
+		}
+		return RunW2(opt, plan, sched, trace)
+	}
+}
+
 func w1(p *Profile) func(plan, sched *simrt.Source, trace bool) *RunOut {
 	return func(plan, sched *simrt.Source, trace bool) *RunOut { return RunW1(p, plan, sched, trace) }
 }
@@ -138,13 +175,18 @@ var Props = map[string]*PropDef{}
 func register(p *PropDef) { Props[p.ID] = p }
 
 func init() {
-	register(&PropDef{ID: "C04", Run: w1(ProfC04), Clauses: set(clSpec, clContain)})
-	register(&PropDef{ID: "C05", Run: w1(ProfC05), Clauses: set(clSpec, clContain)})
-	register(&PropDef{ID: "C09", Run: w1(ProfC09), Clauses: set(clSpec, clContain)})
-	register(&PropDef{ID: "C11", Run: w1(ProfC11), Clauses: set(clResult, clContain)})
-	register(&PropDef{ID: "C12", Run: w1(ProfC12), Clauses: set(clSpec, clContain)})
-	register(&PropDef{ID: "C13", Run: w1(ProfC13), Clauses: set(clSpec, clContain)})
-	register(&PropDef{ID: "C14", Run: w1(ProfC14), Clauses: set(clSpec, clContain)})
-	register(&PropDef{ID: "C15", Run: w1(ProfC15), Clauses: set(clLocals, clContain)})
+	register(&PropDef{ID: "C04", Run: mixed(ProfC04), Clauses: set(clSpec, clContain)})
+	register(&PropDef{ID: "C05", Run: mixed(ProfC05), Clauses: set(clSpec, clContain)})
+	register(&PropDef{ID: "C09", Run: mixed(ProfC09), Clauses: set(clSpec, clContain)})
+	register(&PropDef{ID: "C11", Run: mixed(ProfC11), Clauses: set(clResult, clContain)})
+	register(&PropDef{ID: "C12", Run: mixed(ProfC12), Clauses: set(clSpec, clContain)})
+	register(&PropDef{ID: "C13", Run: mixed(ProfC13), Clauses: set(clSpec, clContain)})
+	register(&PropDef{ID: "C14", Run: mixed(ProfC14), Clauses: set(clSpec, clContain)})
+	register(&PropDef{ID: "C15", Run: mixed(ProfC15), Clauses: set(clLocals, clContain)})
+	register(&PropDef{ID: "C17", Clauses: set(clCapacity, clContain), Run: w2(&W2Opt{Prof: ProfC17, Methods: allEngineMethods, MaxClients: 6, MaxReqs: 4,
+		FinalProbe: true, WaiterRound: true, NilTagPct: 40, Oracle: OracleC17})})
+	register(&PropDef{ID: "C06", Clauses: set(clIsolation, clContain), Run: w2(&W2Opt{Prof: ProfC06, Methods: allEngineMethods, MaxClients: 5, MaxReqs: 5,
+		OptPct: 50, Oracle: OracleC06})})
+	register(&PropDef{ID: "C08", Run: RunW3Builder, Clauses: set(clRuleSet, clContain)})
 	register(&PropDef{ID: "C18", Run: w1(ProfC18), Clauses: set(clConc, clContain)})
 }
